@@ -87,6 +87,39 @@ func ruleHDR(p *Prog, r *Report, onlyPkg string) {
 					r.Bad("HDR", key, at, fmt.Sprintf("FirstIfdOffset is read at offset %d of %s, want 4 bytes after the signature (offset %d of %s)", o2, shortVal(base2), boOff+4, shortVal(base)))
 					return
 				}
+				// ExifLength taken from a box's remaining size must be read where the TIFF header still lies ahead: the Exif
+				// readers count their position from the TIFF header, so a length measured after the header was consumed
+				// ends 8 bytes early
+				if len(x.Call.Args) > 3 {
+					lv := x.Call.Args[3]
+					for i := 0; i < 4; i++ {
+						if cv, ok := lv.(*ssa.Convert); ok {
+							lv = cv.X
+						}
+					}
+					if ld, ok := lv.(*ssa.UnOp); ok && ld.Op == token.MUL {
+						if fa, ok := ld.X.(*ssa.FieldAddr); ok && fieldName(fa.X.Type(), fa.Field) == "remain" {
+							consumedBefore := ""
+							eachCall(f, func(site ssa.CallInstruction) {
+								sc := site.Common().StaticCallee()
+								if sc == nil || len(site.Common().Args) == 0 || site.Common().Args[0] != fa.X {
+									return
+								}
+								if sc.Name() != "Discard" && sc.Name() != "Read" && sc.Name() != "close" {
+									return
+								}
+								sb, lb := site.Block(), ld.Block()
+								if (sb == lb && instrIndex(site) < instrIndex(ld)) || (sb != lb && sb.Dominates(lb)) {
+									consumedBefore = sc.Name() + " at " + p.posStr(instrPos(site))
+								}
+							})
+							if consumedBefore != "" {
+								r.Bad("HDR", key, at, "ExifLength is the box's remaining size measured after "+consumedBefore+" consumed the TIFF header: the Exif reader counts from the header, so the last bytes of the payload are refused")
+								return
+							}
+						}
+					}
+				}
 				r.OK("HDR", key, at, "ByteOrder = BinaryOrder(w), FirstIfdOffset = order.Uint32(w[4:8])")
 			case *ssa.Store:
 				fa, ok := x.Addr.(*ssa.FieldAddr)
